@@ -117,6 +117,8 @@ def classify(name, desc, group):
         if desc.startswith('O:'):
             return 'ownership'
         return 'assertion'
+    if re.search(r'loop invariant|loop decreases|Check assigns clause inclusion for loop', desc, re.I):
+        return 'loop'
     for pat, c in CLASS_PATTERNS:
         if pat.search(name):
             return c
@@ -392,8 +394,9 @@ def run_property(pid, tier, flags, only, scratch, t0, seed, evidence_path):
     ledger = [o for r in results for o in r['obligations']]
     known = [k for k in load_known() if k.get('property') == pid and k.get('status') == 'known']
     expected_file = os.path.join(specdir, 'expected.json')
-    # (preconditions of replaced callees exist per call site of the code under test: not part of the expected set)
-    keys = sorted(set(o['key'] for o in ledger if o['cls'] not in ('memory-safety', 'frame', 'unwinding')
+    # (preconditions of replaced callees exist per call site of the code under test: not part of the expected set;
+    #  loop obligations exist per loop of the code under test - a loop that lost its contract is caught by the loop census)
+    keys = sorted(set(o['key'] for o in ledger if o['cls'] not in ('memory-safety', 'frame', 'unwinding', 'loop')
                       and '.precondition.' not in o['key']))
     if '--bless' in flags:
         if errors:
